@@ -242,3 +242,72 @@ PLANS['C18'] = {
     'note': 'trusted: the schedule controller (harness/src/sstr.rs); contents are unique per schedule so runs do not interfere through the process-global table',
     'technique': 'controlled-schedule runtime monitoring of real threads (exhaustive at hook granularity) + stress with injected delays',
 }
+
+
+def _c17(m, tier, seed, rundir, extra):
+    count = int(extra.get('count', 40000 if tier == 'quick' else 4000000))
+    res = core.run_sharded('c17', ['--seed', seed, '--count', count, '--text', 100000 if tier == 'quick' else 2000000,
+                                   '--blobs', 2000 if tier == 'quick' else 100000, '--repo', core.REPO], SH, rundir)
+    m.add_results(res, 'c17')
+    for n in m.notes:
+        if n.startswith('INCONCLUSIVE'):
+            m.inconclusive.append(n)
+
+
+PLANS['C17'] = {
+    'level': 'exploration',
+    'rule': ('generated values of all 40 Variant types (boundary pools; finite floats for JSON) through serde_json to_string/from_str, from_slice, from_reader, to_value/from_value, '
+             'bincode, MessagePack compact and named: decoded value must be bit-identical (canonical dump); Ref and UniqueId through Display/FromStr (boundaries incl. negative random parts + random); '
+             'exhaustive small domains: all 65536 BrickColor numbers (number, name, serde), all 256 Faces/Axes raw bytes through the compact encodings (valid ones round-trip, invalid ones are errors); '
+             'Tags and MaterialColors blob laws; every sample of rbx_dom_lua/src/allValues.json decodes (from text and from a serde_json::Value) to its stated type and re-encodes to the same JSON; '
+             'non-trivial = every generated value; distinct = digest of (type, canonical value)'),
+    'floor': {'quick': 30000, 'thorough': 1000000},
+    'assumptions': ['serde_json is built with its float_roundtrip feature in the harness: without it serde_json itself parses some f64 texts 1 ulp off, which is not rbx_types behaviour'],
+    'run': _c17,
+    'claim': 'held on N values x 7 encodings, the exhaustive small domains and all 38 allValues.json samples',
+    'note': 'trusted: harness generators, canonical dump; serde_json/bincode/rmp-serde as the encodings under test drive them',
+    'technique': 'runtime encode/decode identity monitor per serde entry point + exhaustive small-domain sweeps',
+}
+
+
+def _c14run(args):
+    import sys
+    sys.path.insert(0, os.path.join(core.VERIF, 'lib'))
+    from monitors import c14
+    return c14.run(args)
+
+
+def _c14(m, tier, seed, rundir, extra):
+    count = int(extra.get('count', 6000 if tier == 'quick' else 400000))
+    res = core.run_sharded('c14', ['--seed', seed, '--count', count], SH, rundir,
+                           per_shard_args=lambda i: ['--caselog', os.path.join(rundir, f'attrs-{i}.jsonl')])
+    m.add_results(res, 'c14')
+    jobs = [(os.path.join(rundir, f'attrs-{i}.jsonl'), os.path.join(rundir, f'foreign-{i}.jsonl'), seed) for i in range(SH)]
+    for s_ in _pool(_c14run, jobs):
+        m.add_summary(s_)
+    import concurrent.futures as cf
+    with cf.ThreadPoolExecutor(max_workers=core.NCPU) as ex:
+        futs = [ex.submit(core.run_vh, ['c14read', '--in', os.path.join(rundir, f'foreign-{i}.jsonl')], os.path.join(rundir, f'c14read-{i}.json')) for i in range(SH)]
+        m.add_results([f.result() for f in futs], 'c14read')
+    for i in range(SH):
+        for f in (f'attrs-{i}.jsonl', f'foreign-{i}.jsonl'):
+            p = os.path.join(rundir, f)
+            if os.path.exists(p):
+                os.remove(p)
+
+
+PLANS['C14'] = {
+    'level': 'exploration',
+    'rule': ('generated attribute maps (0-40 entries, names incl. empty/multi-byte, all 19 types, every rotation id and BrickColor cycled, sequences of 0..1000 keypoints): '
+             '(a) to_writer -> from_reader equals the source under the documented normalisations (String->BinaryString, rotation rule from the docs table); '
+             '(b) refattr.py, an independent decoder written from docs/attributes.md, reads the written bytes to the same map; '
+             '(c) blobs built by the independent encoder (entry order shuffled, axis-aligned rotations in long form, non-0/1 Bool bytes) decode to the map they describe; '
+             '(d) the PROP string in the binary file (refbin.py) and the base64 payload in the XML file (refxml.py) equal the to_writer bytes; '
+             'non-trivial = map with >=2 entries; distinct = digest of the map / blob'),
+    'floor': {'quick': 5000, 'thorough': 300000},
+    'assumptions': ['refattr.py / refbin.py / refxml.py written from the documents', 'rotation bases from the docs table (rot.rs)'],
+    'run': _c14,
+    'claim': 'held on N maps in all four directions (self round trip, independent decode, independent encode, file-level blob identity)',
+    'note': 'trusted: Python reference codecs, harness oracle for the normalisations',
+    'technique': 'runtime round-trip oracle + independent spec codec over recorded blobs (both directions)',
+}
